@@ -158,6 +158,8 @@ static int vis_insert(uint64_t h)
         return 1;
 }
 
+static int parts_seen[8];       /* handler invocations per producer (multi-part events) */
+
 static uint64_t state_key(void)
 {
         uint64_t h = 1469598103934665603ULL;
@@ -167,7 +169,7 @@ static uint64_t state_key(void)
         for (int t = 0; t < nthreads; t++) { MIX(T[t].finished * 64 + T[t].want_lock * 32 + T[t].waiting * 16 + T[t].site); MIX(T[t].opidx); MIX(T[t].waiting && T[t].epoch == progress_epoch); }
         MIX(cur + 1); MIX(lock_owner + 1); MIX(preemptions); MIX(in_pos); MIX(out_n); MIX(write_attempts % 3); MIX(inside_point_done); MIX(hold_released_ok);
         for (int i = 0; i < out_n; i++) MIX((uint8_t)out[i]);
-        for (int p = 0; p < MAXT; p++) MIX(accepted[p] * 64 + full[p] * 8 + delivered[p]);
+        for (int p = 0; p < MAXT; p++) MIX(accepted[p] * 64 + full[p] * 8 + delivered[p] + 1024 * parts_seen[p]);
         return h;
 }
 
@@ -284,9 +286,12 @@ static cat_return_state ev_read(const struct cat_command *cmd, uint8_t *data, si
         inside_point(2);
         /* variant 1: the command machine hands out the command half of the working buffer, the event machine the other one */
         if (variant == 1 && data == wbuf) return CAT_RETURN_STATE_HOLD;
-        delivered[(cmd - cmds) - 1]++;
+        int p = (int)(cmd - cmds) - 1;
+        /* the second producer's READ events have two parts (DATA_NEXT, then DATA_OK): an event counts as delivered with its last part */
+        if (p == 2 && !(parts_seen[p]++ & 1)) return CAT_RETURN_STATE_DATA_NEXT;
+        delivered[p]++;
         /* the first producer's events fail: an event that ends through the error path must not disturb the ones queued behind it */
-        return ((cmd - cmds) - 1 == 1) ? CAT_RETURN_STATE_ERROR : CAT_RETURN_STATE_DATA_OK;
+        return (p == 1) ? CAT_RETURN_STATE_ERROR : CAT_RETURN_STATE_DATA_OK;
 }
 static cat_return_state ev_test(const struct cat_command *cmd, uint8_t *data, size_t *data_size, const size_t max)
 {
@@ -378,7 +383,7 @@ static void run_once(void)
 {
         set_prot(1);
         memset(alias, 0, REGION);
-        memset(accepted, 0, sizeof accepted); memset(full, 0, sizeof full); memset(delivered, 0, sizeof delivered);
+        memset(accepted, 0, sizeof accepted); memset(full, 0, sizeof full); memset(delivered, 0, sizeof delivered); memset(parts_seen, 0, sizeof parts_seen);
         out_n = 0; in_p = variant == 1 ? INPUT1 : variant == 2 ? INPUT2 : INPUT; in_pos = 0; in_n = (int)strlen(in_p); write_attempts = 0; hold_released_ok = 0;
         npts = 0; preemptions = 0; prune_from = -1; cur = -1; lock_owner = -1; progress_epoch = 0; deadlock = 0; aborted = 0;
         nthreads = 1 + n_prod;
